@@ -27,6 +27,8 @@ type Prog struct {
 	Fset    *token.FileSet
 	Roots   []*packages.Package          // packages of the module itself
 	ByPath  map[string]*packages.Package // every package, deps included
+	// sentinels: see sentinelError
+	sentinels map[*ssa.Global]bool
 	SSA     *ssa.Program
 	Funcs   []*ssa.Function // every function with a body that belongs to the module (incl. closures)
 
